@@ -14,13 +14,14 @@ def build_graph(case):
     from gcmpy import NetworkNames as NN
     G = nx.Graph()
     n = len(case["jd"])
-    G.add_nodes_from(range(n))
+    L = R.labels_of(case, n)          # vertex labels 0..N-1, 1000 + 7v or 70000 + v: the matrices do not depend on them
+    G.add_nodes_from(L)
     for v in range(n):
-        G.nodes[v][NN.JOINT_DEGREE] = tuple(case["jd"][v])
+        G.nodes[L[v]][NN.JOINT_DEGREE] = tuple(case["jd"][v])
     for a, b, t, m in case["edges"]:
-        G.add_edge(a, b)
-        G.edges[a, b][NN.TOPOLOGY] = t
-        G.edges[a, b][NN.MOTIF_IDS] = m
+        G.add_edge(L[a], L[b])
+        G.edges[L[a], L[b]][NN.TOPOLOGY] = t
+        G.edges[L[a], L[b]][NN.MOTIF_IDS] = m
     return G
 
 
@@ -77,7 +78,7 @@ def cases(chk):
             continue
         if rng.random() < 0.3:      # annotations need not agree with the actual degrees: the law is stated on annotations
             jd = [tuple(max(1, x + rng.choice([0, 0, 1])) for x in j) for j in jd]
-        cs.append({"edges": es, "jd": jd, "tops": tops, "ncalls": rng.choice([1, 2, 3, 4])})
+        cs.append({"edges": es, "jd": jd, "tops": tops, "ncalls": rng.choice([1, 2, 3, 4]), "labels": rng.choice(["id", "shift", "big"])})
     return cs
 
 
